@@ -856,8 +856,34 @@ class Lower:
             return '&' + t
         return '&(%s){%s}' % (ct, e)
 
+    def _begin_end_of(self, x):
+        """(object node, 'begin'|'end') if x is s.begin()/s.end() of a std::string lvalue, else None"""
+        x = strip(x)
+        while x.get('kind') in ('CXXConstructExpr', 'ImplicitCastExpr', 'MaterializeTemporaryExpr') and kids(x):
+            x = strip(kids(x)[0])
+        if x.get('kind') != 'CXXMemberCallExpr':
+            return None
+        me = strip(kids(x)[0])
+        if me.get('kind') != 'MemberExpr' or me.get('name') not in ('begin', 'end'):
+            return None
+        obj = strip(kids(me)[0])
+        if self.types.classify(qt(obj))[0] != 'str':
+            return None
+        return obj, me['name']
+
     def lib_free_call(self, name, d, args, n):
         self.cur.libcalls.append('::' + str(name))
+        if name == 'transform' and len(args) == 4:
+            # std::transform(s.begin(), s.end(), s.begin(), toupper): in-place upper-casing of one string
+            be = [self._begin_end_of(x) for x in args[:3]]
+            fn = strip(args[3])
+            while fn.get('kind') == 'ImplicitCastExpr':
+                fn = strip(kids(fn)[0])
+            if all(be) and [b[1] for b in be] == ['begin', 'end', 'begin'] and fn.get('referencedDecl', {}).get('name') == 'toupper':
+                objs = [self.ex(b[0]) for b in be]
+                if objs[0] == objs[1] == objs[2]:
+                    return 'cstring__toupper(%s)' % self.addr(objs[0])
+            raise LowerError("std::transform form outside the rule table")
         a = [self.ex(x) for x in args]
         if name in ('memcpy', 'memset', 'rename', 'fstat', 'toupper', 'inet_ntop', 'deflate', 'deflateEnd',
                     'deflateInit2_', 'lzma_code', 'lzma_end', 'lzma_easy_encoder', 'write', 'close', 'htons', 'ntohs',
